@@ -90,6 +90,87 @@ SUMMARY = {
            "at least two objectives with the default fields"),
  "C20-b": ("the per-row flush runs only when is_best",
            "only_record_best_individuals=False and a non-improving registration, then an interruption"),
+ # ---- second round (sub-agents asked for subtler changes arriving inside a plausible refactoring)
+ "C01-c": ("get_arguments resolves type hints once per class through an lru_cached helper",
+           "a class re-annotated with the documented idiom after its first use, then a second extract_grammar / creation"),
+ "C01-d": ("the stack mapper serves a field from the stack of any 'subtype' (issubclass): an int field is served from the bool stack",
+           "stack representation, an int field, a bool value waiting on its stack while the int stack is empty"),
+ "C02-c": ("get_arguments memoises the resolved constructor signature per class (functools.lru_cache)",
+           "re-declare a refinement on a class already seen, extract the grammar again in the same process"),
+ "C02-d": ("Dependent.generate picks the sibling values by filtering the dict in declaration order, the callable is still positional",
+           "Dependent('n2,n1', f) naming siblings in an order other than their declaration order"),
+ "C03-c": ("get_distance_to_terminal: max over the parameters of a generic type became min (right for unions, wrong for tuples)",
+           "a tuple field whose members have different minimum depths, at a tight limit"),
+ "C03-d": ("PositionIndependentGrowDecider gains an __init__ that calls super().__init__(random, grammar) without max_depth",
+           "PI-grow with max_depth below 10 (works with the default 10), or a grammar whose minimum is above 10"),
+ "C04-c": ("elements of a size-refined list are created one level deeper; MaxDepthDecider raises SynthesisException so that creation backtracks silently",
+           "an Annotated[list[T], ListSizeBetween] field whose elements are nodes, at a tight depth limit"),
+ "C04-d": ("preprocess replaces explode_generics by map(strip_annotations, ..) with a symbol filter: unions are no longer unwrapped",
+           "recursion that passes only through a Union-typed field, full creation, depth >= 3"),
+ "C05-c": ("usable_grammar tests is_dataclass(c) before 'c in self.alternatives'",
+           "an abstract type that is itself a dataclass on the path from the start symbol (geml.grammars.letter, regex)"),
+ "C05-d": ("update_weights' re-initialisation moved into _rebuild(), which no longer passes expansion_depthing (ported to the repaired update_weights)",
+           "expansion_depthing=True together with a @weight-decorated production"),
+ "C06-c": ("dSGE mutate rewritten with slicing and randint(0, max(len-1, 0)): an empty gene list grows to one gene",
+           "an empty gene list (crossover offspring), then a mutation that picks that key"),
+ "C06-d": ("per-key crossover extracted into a helper that shares one [] for all keys missing in parent 2 (deepcopy keeps the sharing)",
+           "dSGE offspring with two keys missing in parent 2, mapped (lists grow in place), then mutated"),
+ "C07-c": ("Genotype.get: codons = self.dna.get(ty) or [] and stored only if the key is missing: a present-but-empty list is never extended",
+           "a dSGE genotype with a key mapped to [] (crossover offspring): every read draws from the shared stream"),
+ "C07-d": ("DynamicSGEDecider subclasses MaxDepthDecider and inherits BaseDecider.random_float, which draws from genotype.random",
+           "dSGE with an un-refined float field"),
+ "C08-c": ("StringSizeBetween stores its options through a frozenset; choice indexes list(frozenset)",
+           "string refinements with several options, two processes with different hash seeds"),
+ "C08-d": ("preprocess drops the 'reachability grew' flag from the fixpoint condition",
+           "a grammar whose reachability closure needs more rounds than the distances, iteration order of a set of classes"),
+ "C09-c": ("dSGE mutate copies dict(genotype.dna) and only the edited list (copy-on-write); other lists stay shared and grow in place",
+           "mutate, then map the offspring so that Genotype.get extends a list shared with the parent"),
+ "C09-d": ("mutate's node-replacement branch re-wraps the chosen donor subtree with the receiving position's context (wrap_result writes it in place)",
+           "tree crossover whose replacement comes from the other parent's type index"),
+ "C10-c": ("create_node copies the list of productions only when there is more than one",
+           "a non-terminal with exactly one production whose synthesis fails (SynthesisException handler removes it from the grammar)"),
+ "C10-d": ("the stack mapper visits productions in r.shuffle(g.alternatives[target_type]) order: shuffle is in place",
+           "stack representation, any abstract symbol with two or more productions"),
+ "C11-c": ("relabel_nodes keeps the type index in a plain dict and adopts the child's list object for a new key",
+           "an inner node with two arguments under which the same type occurs"),
+ "C11-d": ("the abstract-expansion table is computed in one pass before the fixpoint instead of inside it",
+           "expansion_depthing=True and an abstract class deriving from another abstract class"),
+ "C12-c": ("the incumbent's fitness is looked up once per batch and handed to post_process (stale within the batch)",
+           "one evaluate() call with two improving individuals, the second worse than the first"),
+ "C12-d": ("SequentialEvaluator.evaluate_async 'continue's for cached individuals before the yield",
+           "individuals evaluated through the raw evaluator before the tracker sees them"),
+ "C13-c": ("TournamentSelection drops its up-front evaluation; key_function -> ensure_fitness evaluates uncounted",
+           "unevaluated individuals reaching a tournament"),
+ "C13-d": ("ParallelEvaluator zips pending with pool.uimap (completion order)",
+           "two or more unevaluated individuals whose evaluations finish out of order"),
+ "C14-c": ("tracker constructors default to evaluator=SequentialEvaluator() (same mechanism as C14-b)",
+           "a tracker built without evaluator, a second search in the process"),
+ "C14-d": ("Population.__init__ hands an individual to the tracker only if it has no fitness yet",
+           "a step composition that ends in an evaluating stage (raw evaluator): the tracker's best is never updated, TargetFitness never stops"),
+ "C15-c": ("ElitismStep de-duplicates its candidates by identity ({id(ind): ind ...}.values()) and never tops up",
+           "the same Individual object several times in the input, fewer than k distinct objects"),
+ "C15-d": ("compute_ranges scales shares by target_size and lets the largest slice absorb the rounding error (can go negative)",
+           "five or more sub-steps with small targets (5 equal weights, k=3 gives 4)"),
+ "C16-c": ("ElitismStep ranks each Individual object once (identity de-duplication; same mechanism as C15-c / C16-b)",
+           "duplicates in the input and k reaching past the first duplicated object"),
+ "C16-d": ("ParallelEvaluator collects results with pool.uimap (same mechanism as C13-a/C13-d): fitnesses land on the wrong individuals",
+           "ParallelEvaluator, a batch of two or more unevaluated individuals, differing evaluation times"),
+ "C17-c": ("lexicase case list built once before the winner loop; shuffle returns the same list, pop drains it",
+           "several winners in one call"),
+ "C17-d": ("ensure_fitness returns self.get_fitness() without the problem; key_function ranks by the first stored problem's fitness",
+           "individuals evaluated for another problem first"),
+ "C18-c": ("choice_weighted draws below int(sum(weights)*100000) but accumulates int(weight*100000) per option",
+           "fractional weights, a zero-weight first option and the draw in the truncation gap"),
+ "C18-d": ("DynamicSGEDecider.random_int scales the gene over wide ranges instead of reducing it modulo the range",
+           "a range of more than 1025 values and a gene above 1024 (after mutation)"),
+ "C19-c": ("extract_grammar decides to normalise with get_gengy(p).get('weight') (truthiness) over all nodes",
+           "every declared weight is 0 (one production switched off, unweighted siblings)"),
+ "C19-d": ("the stack mapper sorts the candidate types but builds the weight list from the unsorted set",
+           "stack representation with non-uniform weights"),
+ "C20-c": ("the default field table becomes a module-level dict that every recorder aliases and extends",
+           "two recorders in one process (the second inherits the first one's Fitness / extra columns)"),
+ "C20-d": ("post_process folded into evaluate with the incumbent hoisted out of the loop: is_best flags are stale within a batch",
+           "only_record_best_individuals=True and a batch with two improvements, the second worse than the first"),
 }
 
 
@@ -110,7 +191,7 @@ def main():
     for name in sorted(SUMMARY):
         vf = os.path.join(VER, name + ".txt")
         prop, x = name.split("-")
-        src = os.path.join(OUT, prop, x)
+        src = os.path.join(OUT, prop, x) if x in "ab" else os.path.join("/tmp/seed2_out", prop, {"c": "a", "d": "b"}[x])
         if not os.path.exists(vf):
             dropped.append((name, "not verified yet"))
             continue
@@ -136,7 +217,9 @@ def main():
         meta = {
             "id": name, "property": prop, "change": what, "needs_to_manifest": needs,
             "origin": "independent sub-agent given only the property text and a scratch worktree"
-                      + (" (ported by hand to the repaired compute_ranges)" if name == "C15-a" else ""),
+                      + (" (ported by hand to the repaired compute_ranges)" if name == "C15-a" else "")
+                      + (" (ported by hand to the repaired update_weights)" if name == "C05-d" else "")
+                      + ("; second round: asked for a subtler change arriving inside a plausible refactoring" if x in "cd" else ""),
             "verified_by_me": {
                 "repo_head": v.get("HEAD"), "patch_applies": v.get("applies"), "library_imports": v.get("imports_exit") == "0",
                 "demo_exit_without_change": int(v.get("demo_clean_exit")), "demo_exit_with_change": int(v.get("demo_patched_exit")),
